@@ -137,7 +137,51 @@ pub fn eval(c: &Case, obs: &mut Obs) -> Result<(), String> {
         if r != Some(true) {
             return Err(format!("{ctx}: a clone taken after {} items does not yield the same remaining items", count / 2));
         }
-        Ok(())
+        // the other ways to iterate must agree with next(): nth, skip, step_by, count, last
+        let base = a.as_ptr() as usize;
+        let want_at = |i: usize| 16 + i * c.d as usize;
+        let r = mb2_model::panics::catch(|| -> Result<(), String> {
+            let tag = tag.cast::<multiboot2::EFIMemoryMapTag>();
+            let off = |d: &multiboot2::EFIMemoryDesc| d as *const _ as usize - base;
+            for k in 0..=count + 1 {
+                let mut it = tag.memory_areas();
+                let got = it.nth(k).map(off);
+                let want = (k < count).then(|| want_at(k));
+                if got != want {
+                    return Err(format!("memory_areas().nth({k}) of {count} entries: expected offset {want:?}, got {got:?}"));
+                }
+                let rest = it.len();
+                let want_rest = count.saturating_sub(k + 1);
+                if rest != want_rest || it.count() != want_rest {
+                    return Err(format!("after nth({k}) of {count} entries {rest} are reported to remain, expected {want_rest}"));
+                }
+                let got: Vec<usize> = tag.memory_areas().skip(k).map(off).collect();
+                let want: Vec<usize> = (k.min(count)..count).map(want_at).collect();
+                if got != want {
+                    return Err(format!("memory_areas().skip({k}): expected {want:?}, got {got:?}"));
+                }
+            }
+            for step in 1..=3usize {
+                let got: Vec<usize> = tag.memory_areas().step_by(step).map(off).collect();
+                let want: Vec<usize> = (0..count).step_by(step).map(want_at).collect();
+                if got != want {
+                    return Err(format!("memory_areas().step_by({step}): expected {want:?}, got {got:?}"));
+                }
+            }
+            if tag.memory_areas().count() != count || tag.memory_areas().last().map(off) != count.checked_sub(1).map(want_at) {
+                return Err("count()/last() disagree with the descriptor count".into());
+            }
+            let (lo, hi) = tag.memory_areas().size_hint();
+            if lo > count || hi.map_or(false, |h| h < count) {
+                return Err(format!("size_hint() = ({lo}, {hi:?}) excludes the actual {count} entries"));
+            }
+            Ok(())
+        });
+        match r {
+            Some(Ok(())) => Ok(()),
+            Some(Err(m)) => Err(format!("{ctx}: {m}")),
+            None => Err(format!("{ctx}: nth/skip/step_by/count/last panicked on a valid map")),
+        }
     } else {
         let _ = base_off;
         check_rejected(&t, p, if c.in_mbi { 8 + size } else { size }, l).map_err(|m| format!("{ctx}: {m}"))
